@@ -118,10 +118,13 @@ def c_cinput(v):
 def run_streams(ctx, dist):
     calls = S.all_calls(ctx.rng, ctx.quick)
     escapes = {}
+    boundary = {}
     n_by = collections.Counter()
     for (entry, value, keyname, reg, tag) in calls:
         st, ex = S.execute(entry, value, keyname, reg)
         n_by[(tag.split("/")[0], st)] += 1
+        if tag.startswith("bnd/"):
+            boundary.setdefault(tag[4:], set()).add("Ok" if st == "ok" else exn_class(ex))
         dist["calls:" + entry] = dist.get("calls:" + entry, 0) + 1
         ctx.coverage["evaluations"] += 1
         if st == "escape":
@@ -132,6 +135,8 @@ def run_streams(ctx, dist):
                 escapes[sig] = (size, value, keyname, reg, tag, loc, str(ex)[:200])
     for k, v in sorted(n_by.items()):
         dist["stream %s %s" % k] = v
+    # outcome classes per boundary of the content-encryption / key-management layers (genuine tags)
+    ctx.coverage["boundary_observations"] = {k: sorted(v) for k, v in sorted(boundary.items())}
     # distinct inputs: by (entry, value) digest, cheap
     ctx.distinct.update({hash((c[0], S.short(c[1], 100000), c[2], c[3])) .to_bytes(8, "big", signed=True) for c in calls})
     for (entry, exc, fn), (size, value, keyname, reg, tag, loc, msg) in sorted(escapes.items(), key=lambda kv: kv[0]):
@@ -310,6 +315,27 @@ def function_cases(ctx, dist):
         k = OctKey.import_key({"kty": "oct", "k": "AAAA", **({"use": use} if use else {})})
         for u in ("sig", "enc"):
             add("FCheckUse %s %s %s" % (c_key(k), c_string(u), c_res(call(k.check_use, u), c_unit)), ("FCheckUse", use, u))
+    # ---- PKCS7 unpadding (modelled step of the CBC-HS encs) against pyca's unpadder
+    from joserfc.rfc7518 import jwe_encs as _je
+
+    def real_unpad(data):
+        u = _je.PKCS7(128).unpadder()
+        return u.update(data) + u.finalize()
+    datas = [b"", b"\x01", bytes(15), bytes(16), bytes(17), bytes([16]) * 16, bytes([16]) * 15 + b"\x0f", bytes([17]) * 32, bytes(15) + b"\x01",
+             bytes(13) + b"\x03\x03\x03", bytes(13) + b"\x03\x02\x03", bytes(13) + b"\x02\x03\x03", bytes(31) + b"\x10", bytes(16) + bytes([16]) * 16,
+             bytes(15) + b"\x00", bytes(15) + b"\xff", bytes(15) + b"\x11", bytes([1]) * 16, bytes([2]) * 16, bytes([15]) * 16, bytes([15]) * 15, bytes(48)]
+    for _ in range(ctx.scale(150, 3000)):
+        n = rng.choice([0, 1, 15, 16, 16, 16, 17, 31, 32, 32, 48])
+        b = bytearray(rng.randrange(256) for _ in range(n))
+        if n and rng.random() < 0.7:
+            v = rng.choice([0, 1, 2, 3, 8, 15, 16, 17, 255])
+            for i in range(1, min(v, n) + 1):
+                b[-i] = v
+            if rng.random() < 0.3 and n > 1:
+                b[-rng.randrange(1, min(max(v, 2), n) + 1)] ^= rng.choice([1, 0x10, 0xff])
+        datas.append(bytes(b))
+    for data in datas:
+        add("FUnpad %s %s" % (c_hex(data), c_res(call(real_unpad, data), c_hex)), ("FUnpad", data))
     # ---- guess_key with Key / KeySet / callable / text / other, kid of every JSON type ; sender keys with skid
     from joserfc.jwk import guess_key
     from joserfc.jwe import _guess_sender_key
@@ -506,8 +532,46 @@ class PrimRecorder:
             self.patch(obj, attr, w)
         for a in jws.JWSRegistry.algorithms.values():
             wrap_method(a, "verify", "alg.verify", lambda r, a_: (r,))
+        from joserfc.rfc7518 import jwe_encs
+        real_pkcs7 = jwe_encs.PKCS7
+        R.cbc_raw = None
+
+        class Pkcs7Shim:
+            """records the raw CBC output handed to the unpadder: the unpadding is part of the model"""
+            def __init__(self_, bits):
+                self_.p = real_pkcs7(bits)
+
+            def padder(self_):
+                return self_.p.padder()
+
+            def unpadder(self_):
+                u = self_.p.unpadder()
+
+                class U:
+                    def update(self__, data):
+                        R.cbc_raw = (R.cbc_raw or b"") + bytes(data)
+                        return u.update(data)
+
+                    def finalize(self__):
+                        return u.finalize()
+                return U()
+        self.patch(jwe_encs, "PKCS7", Pkcs7Shim)
+
+        def enc_cls(r, a_):
+            raw, R.cbc_raw = R.cbc_raw, None
+            return (("ok", raw),) if raw is not None else (r,)
         for m in jwe.JWERegistry.algorithms["enc"].values():
-            wrap_method(m, "decrypt", "enc.decrypt", lambda r, a_: (r,))
+            orig_dec = m.decrypt
+
+            def dec(*a, _orig=orig_dec, **k):
+                R.cbc_raw = None
+                r = call(_orig, *a, **k)
+                c = enc_cls(r, a)
+                R.rec("enc.decrypt", c[0])
+                if r[0] == "err":
+                    raise r[1]
+                return r[1]
+            self.patch(m, "decrypt", dec)
         for z in jwe.JWERegistry.algorithms["zip"].values():
             wrap_method(z, "decompress", "zlib", lambda r, a_: (raw_inflate(a_[0]),))
 
